@@ -13,6 +13,8 @@ package persisters
 //@   at call Where#1 assert [lookup-uses-stored-name] unboxStr(arg_args[0]) == hdr.Name
 //@   at call Where#2 assert [lookup-uses-stored-linkname] unboxStr(arg_args[0]) == hdr.Linkname
 //@   property C01
+//@   at call Where#1 assert [existing-row-looked-up-by-stored-name] unboxStr(arg_args[0]) == hdr.Name
+//@   at call Where#2 assert [existing-row-looked-up-by-stored-link-path] unboxStr(arg_args[0]) == hdr.Linkname
 //@   at call getSanitizedPath#2 assert [link-path-spelled-like-lookups] arg_name == idbhdr.Linkname && idbhdr.Linkname != ""
 //@   property C07
 //@   at call Update#1 assert [name-kept-when-initializing] initializing ==> hdr.Name == old(dbhdr.Name)
@@ -26,3 +28,15 @@ package persisters
 //@   property C13
 //@   modifies *
 //@   ensures [count-limit] limit > 0 && result1 == nil ==> len(result0) <= limit
+
+// Name sanitising per index layout. L1: the creating instance (root "/"): absolute names are stored as they are. L2: an
+// index rebuilt by replay (root stored as "", seen and cached): every name is stored relative to the root, whatever its
+// spelling; the root itself maps to the stored root in every layout.
+//@ func (*MetadataPersister).getSanitizedPath
+//@   property C17 also C16 C01
+//@   modifies *
+//@   ensures [root-spellings-map-to-stored-root] (name == "" || name == "." || name == "/" || name == "./") ==> result == p.root
+//@   ensures [absolute-layout-keeps-absolute-names] old(p.root) == "/" && hasPrefix(name, "/") && name != "/" ==> result == name
+//@   ensures [relative-layout-strips-the-slash] old(p.root) == "" && old(p.rootIsEmptyString) && name != "" && name != "." && name != "/" && name != "./" ==> result == pjoinF("", trimPrefix(name, "/"))
+//@   property C16
+//@   ensures [relative-layout-strips-the-slash-on-open] old(p.root) == "" && old(p.rootIsEmptyString) && name != "" && name != "." && name != "/" && name != "./" ==> result == pjoinF("", trimPrefix(name, "/"))
